@@ -240,7 +240,8 @@ func RunC17(r *core.Run) {
 				N, vno, more, types = x.l.N, x.vno, x.l.More(), x.l.Types
 				get = func(i int) (*sipsp.PTokParam, sipsp.URIParamF) { return &x.l.Params[i].Param, x.l.Params[i].T }
 			}
-			if N != len(pl.Items) || vno != len(pl.Items) {
+			_ = vno // the per-call count is not part of the statement (see parsers.go)
+			if N != len(pl.Items) {
 				fnd := ""
 				if len(pl.Items) == 0 && N == 1 && e == sipsp.ErrHdrEOH {
 					if pc == 0 {
@@ -249,7 +250,7 @@ func RunC17(r *core.Run) {
 						fnd = "D14a"
 					}
 				}
-				fail("count", fmt.Sprintf("N=%d, values reported by the calls=%d, %d items were written", N, vno, len(pl.Items)), fnd)
+				fail("count", fmt.Sprintf("N=%d, %d items were written", N, len(pl.Items)), fnd)
 				if fnd != "" {
 					continue
 				}
@@ -301,10 +302,20 @@ func RunC17(r *core.Run) {
 		var starts []int
 		var items []gen.PLItem
 		var ends []int
+		badAt := -1
+		if rr.Intn(3) == 0 {
+			badAt = rr.Intn(k - 1) // this call starts with a byte no mode accepts: an error, nothing is added
+		}
 		for i := 0; i < k; i++ {
 			o := gen.PLOpts{Flags: eff, Term: gen.TermChar, MaxItems: 4}
 			if i == k-1 {
 				o.Term = gen.TermEOH
+			}
+			if i == badAt {
+				starts = append(starts, len(buf))
+				buf = append(buf, []string{"\x01bad=1,", "\x7f,", "\x00x;y,"}[rr.Intn(3)]...)
+				ends = append(ends, -1)
+				continue
 			}
 			pl := gen.ParamList(rr, o)
 			base := len(buf)
@@ -352,6 +363,15 @@ func RunC17(r *core.Run) {
 			if pan != "" {
 				fail("panic " + pan)
 				return
+			}
+			if ends[i] < 0 {
+				// the malformed call: an error verdict; the caller skips it and goes on
+				if !IsErrVerdict(e) {
+					fail(fmt.Sprintf("call %d starts with a byte outside every character set but returned (%d, %s)", i, n, errName(e)))
+					return
+				}
+				w.Inc("error_calls_in_between")
+				continue
 			}
 			wantE, wantN := sipsp.ErrHdrOk, ends[i]
 			if i == k-1 {
